@@ -198,6 +198,10 @@ class GopherEntry:
             if blockname in self.ea:
                 continue
             try:
+                # Only regular files are sidecars: never open a FIFO (which
+                # would block for ever) or a socket that carries such a name.
+                if not vfs.isfile(selector + extension):
+                    continue
                 with vfs.open(
                     selector + extension, "r", errors="surrogateescape"
                 ) as rfile:
